@@ -192,6 +192,9 @@ def run_unit(unit, canary=False, use_cache=True, log_air=False):
             # a postcondition is a contract clause: semantic wherever the return point is, if the fn is extracted code
             semantic = meta.get("fn") is not None and origin in ("code", "spec") and not fn.startswith("lemma")
         misfit = fn in warned_fns   # the proof script lost an anchor/loop/rule in this function: "script no longer fits"
+        if k2 == "rlimit":
+            # the solver gave up within its resource limit: neither proved nor refuted -> undecided, never an alarm
+            misfit = True
         if misfit:
             semantic = False
         name = "%s::%s::%s@%s" % (unit, fn, k2, clause if (k2 == "postcondition" and clause) else anchor)
